@@ -15,10 +15,11 @@ RULE = ("postconditions on Line/Plane.perpendicular, parallel, project, mirror, 
         "mirror = 2 foot - p and involutive, predicates equal the exact relation on lattice inputs (rational dot products / circle determinant / "
         "rank), bisectors perpendicular with equal angles. Workload: every orientation class (vertical, horizontal, through the origin, generic), "
         "the point on / off the subspace, 2D and 3D, collections with mixed on/off masks. Non-trivial: >= 2 coordinates outside {0,1,-1}; "
-        "distinct by operand digest.")
+        "distinct by operand digest."
+        " The constructions must leave their operands unchanged (snapshot of the operand bytes before the call).")
 SHARDS = (8, 16)
 REQUIRED = ["perpendicular", "parallel", "project", "mirror", "is_parallel", "base_point", "direction", "basis_matrix", "general_point", "is_perpendicular",
-            "is_cocircular", "is_coplanar", "angle_bisectors"]
+            "is_cocircular", "is_coplanar", "angle_bisectors", "operands"]
 ASSUMPTIONS = ["plane.perpendicular(line) for a line perpendicular to the plane has no unique answer (excluded)", "3D line.mirror(p) with p on the line is documented as unhandled"]
 EXHAUSTIVE = {"quick": [], "thorough": []}
 
